@@ -3,7 +3,7 @@
 #![allow(static_mut_refs)]
 
 pub const MAX_ID: usize = 1 << 16;
-pub const CB_CAP: usize = 1 << 14;
+pub const CB_CAP: usize = 1 << 18;
 
 #[derive(Clone, Copy)]
 pub enum Cb {
